@@ -66,6 +66,10 @@ type Policy struct {
 	// IdleDen > 0: with probability 1/IdleDen a step lets simulated time pass
 	// (so timers of background workers fire) although tasks are eligible.
 	IdleDen int
+	// IdleMax bounds the length of such an idle step (default 2 s). Keep it in
+	// the order of the background workers' intervals: every simulated second
+	// costs their polling.
+	IdleMax time.Duration
 }
 
 // PointObserver sees every verifhook.Point of the system under test before the
@@ -504,10 +508,17 @@ func (s *Sched) Run(done func() bool) error {
 }
 
 func (s *Sched) idleDuration() time.Duration {
-	// classes from microseconds to hours
-	classes := []time.Duration{time.Millisecond, 50 * time.Millisecond, time.Second, 30 * time.Second, 10 * time.Minute, 2 * time.Hour}
-	c := classes[s.Tape.Int(len(classes))]
-	return c + time.Duration(s.Tape.Int(1000))*c/1000
+	max := s.Policy.IdleMax
+	if max <= 0 {
+		max = 2 * time.Second
+	}
+	// log-uniform-ish: a class (fraction of max), then a point inside it
+	div := []int64{1000, 100, 10, 1}[s.Tape.Int(4)]
+	c := int64(max) / div
+	if c < int64(time.Microsecond) {
+		c = int64(time.Microsecond)
+	}
+	return time.Duration(c/10 + (c-c/10)*int64(s.Tape.Int(1000))/1000)
 }
 
 // idle blocks root until a task parks or max simulated time passed.
